@@ -114,12 +114,16 @@ RICH_VALID = [
     lambda u, r: f"var w{u}: Int? = nil",
     lambda u, r: f"const Q{u} = \"s{r.randint(1, 9)}\"",
     lambda u, r: f"g{u} := |a: Int|: Int -> a * {r.randint(2, 5)}",
+    lambda u, r: f"module U{u}; const UC{u} = {r.randint(1, 99)}; def uf{u}: Int; {r.randint(1, 99)}; end; class UK{u}; def m: Int; 1; end; end; end",
+    lambda u, r: f"using U{u}::*",
+    lambda u, r: f"using U{u}::*",
 ]
 RICH_USE = [
     lambda u, r: f"println(M{u}.f(3))", lambda u, r: f"println(K{u}().m)", lambda u, r: f"println(K{u}().n)",
     lambda u, r: f"println(S{u}(4).a)", lambda u, r: f"println(KX{u}().g)", lambda u, r: f"println(d{u}(1))",
     lambda u, r: f"println(v{u})", lambda u, r: f"v{u} = v{u} + 1", lambda u, r: f"println(w{u}.inspect)", lambda u, r: f"w{u} = 3",
     lambda u, r: f"println(Q{u})", lambda u, r: f"println(g{u}(2))", lambda u, r: f"v{u} + 1",
+    lambda u, r: f"println(UC{u})", lambda u, r: f"println(uf{u}())", lambda u, r: f"println(UK{u}().m)",
     lambda u, r: "var it: ClosedRange::Iterator[Int] = (1...5).iter" if r.random() < 0.15 else "println((1...3).to_a.inspect)"
     if r.random() < 0.3 else f"println(v{u})",
 ]
@@ -411,11 +415,11 @@ def run(ctx):
         inp = json.load(open(ctx.replay))["input"]
         hs, model_hs = [inp["history"]], []
     else:
-        nm, nr = ctx.n(8, 150), ctx.n(10, 250)
+        nm, nr = ctx.n(8, 80), ctx.n(10, 160)
         model_hs = [gen_model_history(ctx.rng) for _ in range(nm)]
         hs = corpus_histories() + [["\n".join(render_item(it, f"{ctx.seed}q{k}") for it in items) for items in h] for k, h in enumerate(model_hs)] \
             + [gen_rich_history(ctx.rng, f"{ctx.seed}h{i}") for i in range(nr)]
-    nc = len(hs) - len(model_hs) - (0 if ctx.replay else ctx.n(10, 250))
+    nc = len(hs) - len(model_hs) - (0 if ctx.replay else ctx.n(10, 160))
     ok_batch, ok_model, reported = True, True, 0
     model_ans = vlib.run_model([model_line(h) for h in model_hs]) if model_hs else []
     B = 24
